@@ -123,9 +123,10 @@ LxInit(cfg) ==
            okslices |-> {},                 \* <<key, off>> of slices with a successful service in the current call
            texts |-> LOpt(cfg, "status_texts", <<>>),
            access |-> LOpt(cfg, "access_texts", <<>>), fw |-> LOpt(cfg, "fw", 0), allprogs |-> LOpt(cfg, "all_programs", 1) = 1,
-           upl |-> [pages |-> 0] ]
+           upl |-> [pages |-> 0, refused |-> FALSE] ]      \* refused: a symbol-list page of the current call was answered with an error status
 
-LxCall(lx, ev) == IF ~lx.on THEN lx ELSE [lx EXCEPT !.pre = lx.mem, !.xfer = <<>>, !.ledger = <<>>, !.svclog = <<>>, !.okslices = {}]
+LxCall(lx, ev) == IF ~lx.on THEN lx ELSE [lx EXCEPT !.pre = lx.mem, !.xfer = <<>>, !.ledger = <<>>, !.svclog = <<>>, !.okslices = {},
+                                                    !.upl = [pages |-> 0, refused |-> FALSE]]
 LxOpenMayFail(lx) == FALSE
 
 IsTagSvc(svc) == svc \in {76, 82, 77, 83, 78}
@@ -303,7 +304,9 @@ SymbolList(lx, segs, data, cap, choice) ==
             IN IF Len(data) # 2 + 2 * na THEN SvcR("C05:symbol-request", <<>>, lx)
                ELSE LET attrs == [i \in 1..na |-> U16(data, 1 + 2 * i)]
                         progknown == \E i \in 1..Len(P.symbols) : P.symbols[i].kind = "program" /\ P.symbols[i].name = ProgPrefix \o scope
-                    IN IF prog /\ ~progknown THEN SvcR("", MRReply(85, 5, <<>>, <<>>), lx)
+                    IN IF LHas(choice, "pagefail")                  \* the controller refuses this page (busy, ...): the upload cannot be complete
+                       THEN SvcR("", MRReply(85, choice.pagefail, <<>>, <<>>), [lx EXCEPT !.upl = [@ EXCEPT !.refused = TRUE]])
+                       ELSE IF prog /\ ~progknown THEN SvcR("", MRReply(85, 5, <<>>, <<>>), lx)
                        ELSE LET todo == SelectSeq(P.symbols, LAMBDA s : s.scope = scope /\ BigLE(start, s.iid))   \* project lists symbols by ascending id
                                 k == IF LHas(choice, "pages") /\ lx.pagei < Len(choice.pages) THEN choice.pages[lx.pagei + 1] ELSE Len(todo)
                                 out == FlattenSeq([i \in 1..k |-> SymRecord(P, todo[i], attrs)])
@@ -344,7 +347,13 @@ LxService(lx, svc, segs, data, cap, choice, call) ==
     LET cls == IF Len(segs) >= 1 /\ segs[1].k = "log" /\ segs[1].lt = "class" /\ BigIsSmall(segs[1].v) THEN BigToSmall(segs[1].v) ELSE -1
         lx0 == [lx EXCEPT !.capi = 0, !.pagei = 0]
     IN IF svc = 10 /\ cls = 2 THEN MultiService(lx0, data, cap, choice)
-       ELSE IF svc = 85 THEN SymbolList(lx0, segs, data, cap, choice)
+       ELSE IF svc = 85 THEN
+            LET r == SymbolList(lx0, segs, data, cap, choice)
+                \* the driver asks only for program scopes the controller itself listed: an unknown scope during an upload it
+                \* drives itself (open, get_tag_list of all programs) is a wrong path, not a user error
+                wrongScope == r.fail = "" /\ Len(r.reply) >= 3 /\ r.reply[3] = 5 /\ ~LHas(choice, "pagefail")
+                              /\ (call.api \in {"open", "enter"} \/ (call.api = "get_tag_list" /\ LOpt(call.intent, "allprogs", 0) = 1))
+            IN IF wrongScope THEN SvcR("C05:unknown-program+C09:meaning", <<>>, lx) ELSE r
        ELSE IF cls = 108 THEN TemplateSvc(lx0, svc, segs, data, cap, choice)
        ELSE IF cls = 100 THEN SvcR("", MRReply(1, 0, <<>>, LE(Len(lx.P.name), 2) \o lx.P.name), lx0)
        ELSE TagService(lx0, svc, Canon(segs), segs, data, cap, choice, FALSE)
